@@ -1,5 +1,8 @@
 import TexcraftModel.Model.C15
 import TexcraftModel.Lemmas.C15
+import TexcraftModel.Lemmas.C15Range
+import TexcraftModel.Lemmas.C15Fill
+import TexcraftModel.Lemmas.C15Font
 
 /-!
 C15 — packing a horizontal list produces TeX's box dimensions and glue setting.
@@ -179,6 +182,179 @@ theorem hpack_eq_tex (l : List Item) (pw : PackWidth) : (hpack l pw).agrees (tex
       intro hc; apply hno; refine ⟨hc.2.1, ?_⟩; have := hc.1; rw [hc.2.1] at this; exact this
     simp [texHpack, HBox.agrees, hex, h0, h1, hs, hno']
 
+/-! ## Deepening round: node-by-node filling, the `i32` bound, the `<=` variant -/
+
+/-- **The box-width identity, node by node** (TeX §625 with the exact ratio): when the ratio
+`num/den` is applied to every glue node of the box's order (stretch when the box must grow,
+shrink when it must contract) and every other node keeps its width, the widths add up to the
+box width exactly whenever TeX sets the glue and does not call the box overfull; an overfull
+box with some shrinkability comes out at `natural − total_shrink`. Stated times `den`. -/
+theorem set_widths_fill (l : List Item) (pw : PackWidth) :
+    (0 < excess l pw → totalStretch l (texOrder (totalStretch l)) ≠ 0 →
+      (hpack l pw).den ≠ 0 ∧
+      sum (l.map (Item.setWidthTimesDen (hpack l pw) true)) = (hpack l pw).width * (hpack l pw).den) ∧
+    (Overfull l pw → totalShrink l .normal ≠ 0 →
+      (hpack l pw).den ≠ 0 ∧
+      sum (l.map (Item.setWidthTimesDen (hpack l pw) false))
+        = (natWidth l - totalShrink l .normal) * (hpack l pw).den) ∧
+    (excess l pw < 0 → totalShrink l (texOrder (totalShrink l)) ≠ 0 → ¬ Overfull l pw →
+      (hpack l pw).den ≠ 0 ∧
+      sum (l.map (Item.setWidthTimesDen (hpack l pw) false)) = (hpack l pw).width * (hpack l pw).den) := by
+  have hex : excess l pw = pw.width (natWidth l) - natWidth l := rfl
+  rcases hpack_cases l pw with ⟨hx, e⟩ | ⟨hx, hs, e⟩ | ⟨hx, hz, e⟩ | ⟨hx, ho, hlt, hs, e⟩ | ⟨hx, hz, e⟩ |
+      ⟨hx, hno, hs, e⟩ <;> rw [e] <;>
+    refine ⟨fun h hn => ?_, fun hov hn => ?_, fun h hn hov => ?_⟩ <;>
+    simp only [sum_setWidth, if_true, Bool.false_eq_true, if_false]
+  -- excess = 0
+  · omega
+  · exact absurd hov.1 (by omega)
+  · omega
+  -- stretching, set
+  · exact ⟨hs, by rw [hex]; exact fill_key _ _ _⟩
+  · exact absurd hov.1 (by omega)
+  · omega
+  -- stretching, nothing to stretch
+  · exact absurd (hz _) hn
+  · exact absurd hov.1 (by omega)
+  · omega
+  -- overfull with shrinkability
+  · omega
+  · refine ⟨by simp [ONE], ?_⟩; simp only [ONE]; omega
+  · exact absurd ⟨hx, ho, hlt⟩ hov
+  -- shrinking, nothing to shrink
+  · omega
+  · exact absurd (hz _) hn
+  · exact absurd (hz _) hn
+  -- shrinking, set
+  · omega
+  · exact absurd ⟨hov.2.1, hov.2.2⟩ hno
+  · exact ⟨hs, by rw [hex]; exact fill_key _ _ _⟩
+
+/-- The executable form of `set_widths_fill` (the one the driver evaluates on the real box)
+holds of the model's box. -/
+theorem hpack_fills (l : List Item) (pw : PackWidth) : fillsExactly l pw (hpack l pw) = true := by
+  obtain ⟨h1, h2, h3⟩ := set_widths_fill l pw
+  unfold fillsExactly
+  simp only []
+  split
+  · rename_i h; exact decide_eq_true (h1 h.1 h.2)
+  · split
+    · rename_i h; exact decide_eq_true (h2 h.1 h.2)
+    · split
+      · rename_i h; exact decide_eq_true (h3 h.1 h.2.1 h.2.2)
+      · rfl
+
+/-- **TeX's size discipline keeps `pack` inside `i32`**: if the absolute widths, the absolute
+stretch amounts and the absolute shrink amounts of the list each add up to at most
+`max_dimen = 2^30 − 1`, every `[w, h, d]` fits, and the requested width is at most `max_dimen`
+in absolute value, then no intermediate value of `pack` (partial sums of widths and of the
+eight totals, `natural + additional`, `width − natural`, `−excess`) leaves `i32`: neither the
+overflow panic of a checked build nor the wrap of a release build can occur. -/
+theorem small_inRange (l : List Item) (pw : PackWidth) (h : Small l pw = true) :
+    inRange l pw = true := by
+  simp only [Small, Bool.and_eq_true, decide_eq_true_eq] at h
+  obtain ⟨⟨⟨⟨hall, hw⟩, hs⟩, hk⟩, ha⟩ := h
+  change SW l ≤ maxDimen at hw
+  change SS l ≤ maxDimen at hs
+  change SK l ≤ maxDimen at hk
+  have z : ∀ o, ({} : Totals).get o = 0 := by intro o; cases o <;> rfl
+  have hloop : loopRange {} l = true := by
+    apply loopRange_of_bounds l {} hall
+    · show -(maxDimen - SW l) ≤ (0 : Int) ∧ (0 : Int) ≤ maxDimen - SW l; omega
+    · intro o; show -(maxDimen - SS l) ≤ ({} : Totals).get o ∧ ({} : Totals).get o ≤ maxDimen - SS l
+      rw [z]; omega
+    · intro o; show -(maxDimen - SK l) ≤ ({} : Totals).get o ∧ ({} : Totals).get o ≤ maxDimen - SK l
+      rw [z]; omega
+  obtain ⟨h1, -, -, -, -⟩ := loop_init l
+  have nb := natWidth_bounds l
+  have ab := iabs_bounds pw.amount
+  simp only [maxDimen] at hw ha
+  unfold inRange
+  simp only [h1, hloop, Bool.true_and, Bool.and_eq_true, Bool.or_eq_true]
+  cases pw with
+  | exact w =>
+    simp only [PackWidth.width, PackWidth.amount] at *
+    exact ⟨⟨i32_of_abs_le (by omega) (by omega), i32_of_abs_le (by omega) (by omega)⟩,
+      Or.inr (i32_of_abs_le (by omega) (by omega))⟩
+  | additional a =>
+    simp only [PackWidth.width, PackWidth.amount] at *
+    exact ⟨⟨i32_of_abs_le (by omega) (by omega), i32_of_abs_le (by omega) (by omega)⟩,
+      Or.inr (i32_of_abs_le (by omega) (by omega))⟩
+
+/-- **Why `shrink <= -excess` in the overfull test is an equivalent mutant** (sweep, nn 19):
+the variant is TeX's box as well; at the boundary it stores `−ONE/ONE` for `excess/shrink`,
+the same ratio −1. -/
+theorem hpackLe_eq_tex (l : List Item) (pw : PackWidth) : (hpackLe l pw).agrees (texHpack l pw) := by
+  have base := hpack_eq_tex l pw
+  have hh : hpackLe l pw = (if pw.width (loop {} l).natW - (loop {} l).natW < 0 ∧
+        (loop {} l).sh.dominating = .normal ∧
+        (loop {} l).sh.get (loop {} l).sh.dominating = -(pw.width (loop {} l).natW - (loop {} l).natW) then
+      ⟨(loop {} l).h, pw.width (loop {} l).natW, (loop {} l).d, .normal, -ONE, ONE⟩
+      else hpack l pw) := by
+    unfold hpackLe hpack finish
+    simp only []
+    rw [setGlueLe_eq]
+  rw [hh]
+  split
+  · rename_i hc
+    obtain ⟨hx, ho, he⟩ := hc
+    obtain ⟨e1, e2, e3, e4, e5⟩ := loop_init l
+    rw [dominating_eq, texOrder_congr e5] at ho
+    rw [dominating_eq, texOrder_congr e5, e5, e1] at he
+    rw [e1] at hx
+    rw [e1, e2, e3]
+    have hex : pw.width (natWidth l) - natWidth l = excess l pw := rfl
+    rw [hex] at hx he
+    have h0 : ¬ excess l pw = 0 := by omega
+    have h1 : ¬ 0 < excess l pw := by omega
+    rw [ho] at he
+    have hs : ¬ totalShrink l .normal = 0 := by omega
+    have hlt : ¬ totalShrink l .normal < -excess l pw := by omega
+    simp [texHpack, HBox.agrees, hex, h0, h1, ho, hs, hlt, ONE]
+    omega
+  · exact base
+
+/-- **Glyph metrics against the raw TFM tables, per (font, character).** With the real font
+repository (`TfmFontRepo` over `tfm::File`s) `pack` panics exactly when some glyph names an
+unregistered font; otherwise the box width is the target computed from the sum, over the
+nodes, of the width-table entry of each character *in its own font* (nothing for a character
+the font lacks: no `char_dimens` entry, invalid width index, index outside the table, code
+above 255), and height/depth are the maxima (with 0) of the height/depth-table entries of the
+characters that exist (0 for an index outside the table) and of what the other nodes ask. -/
+theorem hpack_tfm_dims (r : Repo) (ns : List Node) (pw : PackWidth) :
+    (hpackTfm r ns pw = none ↔ ¬ ns.all (Node.registered r) = true) ∧
+    ∀ b, hpackTfm r ns pw = some b →
+      b.width = pw.width (sum (ns.map (Node.width r))) ∧
+      b.height = max0 (ns.map (Node.height r)) ∧
+      b.depth = max0 (ns.map (Node.depth r)) ∧
+      ∃ l, resolve r ns = some l ∧ b.agrees (texHpack l pw) := by
+  have hs := resolve_isSome r ns
+  constructor
+  · unfold hpackTfm
+    cases hr : resolve r ns with
+    | none =>
+      rw [hr] at hs
+      simp only [Option.isSome_none] at hs
+      simp [← hs]
+    | some l =>
+      rw [hr] at hs
+      simp only [Option.isSome_some] at hs
+      simp [← hs]
+  · intro b hb
+    unfold hpackTfm at hb
+    cases hr : resolve r ns with
+    | none => rw [hr] at hb; contradiction
+    | some l =>
+      rw [hr] at hb
+      simp only [Option.some.injEq] at hb
+      subst hb
+      obtain ⟨a, h, d⟩ := resolve_dims r ns l hr
+      have hd := height_depth_max l pw
+      refine ⟨?_, ?_, ?_, l, rfl, hpack_eq_tex l pw⟩
+      · rw [← a, hpack_eq]; exact (setGlue_dims ..).2.2
+      · rw [← h]; exact hd.1
+      · rw [← d]; exact hd.2.1
+
 /-! ## Non-vacuity: concrete instances that meet the hypotheses -/
 
 /-- `glue(0pt plus 5pt) glue(0pt plus 0fil)` packed to 10pt (the C15-a witness). -/
@@ -209,6 +385,27 @@ example : excess wC (.exact 0) < 0 ∧ (∀ i ∈ wC, ∀ g, i ≠ .glue g) ∧
   intro i hi g; simp [wC] at hi; subst hi; simp
 -- `height_depth_max`: a shifted box: height 8pt − 3pt, depth 1pt + 3pt, width 4pt.
 example : hpack wC (.additional 0) = ⟨327680, 262144, 262144, .normal, 0, 1⟩ := by decide
+
+-- `set_widths_fill`, shrinking at order fil: 0pt + 0pt with `−2pt/1pt` of `minus 1fil` = −2pt.
+example : sum (wD.map (Item.setWidthTimesDen (hpack wD (.exact (-131072))) false))
+    = (hpack wD (.exact (-131072))).width * (hpack wD (.exact (-131072))).den ∧
+    fillsExactly wD (.exact (-131072)) (hpack wD (.exact (-131072))) = true := by decide
+-- `small_inRange`: the hypothesis is met by ordinary lists, and it is not vacuous that it can fail.
+example : Small wA (.exact 655360) = true ∧ Small wB (.additional (-196608)) = true ∧
+    Small [.kern 1073741823, .kern 1] (.additional 0) = false ∧
+    inRange [.kern 2147483647, .kern 1] (.additional 0) = false := by decide
+-- `hpackLe_eq_tex`: at the boundary `shrink = −excess` the two models store different pairs.
+example : hpack wB (.additional (-131072)) = ⟨0, 524288, 0, .normal, -131072, 131072⟩ ∧
+    hpackLe wB (.additional (-131072)) = ⟨0, 524288, 0, .normal, -65536, 65536⟩ := by decide
+
+-- `hpack_tfm_dims`: the same code `97` in two fonts with different tables, an invalid width
+-- index, a height index outside the table, a code above 255, and an unregistered font.
+def wFont0 : TfmFont := ⟨[(97, ⟨1, 1, 0⟩), (98, ⟨0, 1, 1⟩)], [0, 500], [0, 430], [0, 10]⟩
+def wFont1 : TfmFont := ⟨[(97, ⟨2, 5, 1⟩)], [0, 7, 800], [0, 600], [0, 25]⟩
+example : hpackTfm [(0, wFont0), (1, wFont1)]
+      [.glyph 97 0, .glyph 97 1, .glyph 98 0, .glyph 300 0, .other (.kern 3)] (.additional 0)
+    = some ⟨430, 1303, 25, .normal, 0, 1⟩ ∧
+    hpackTfm [(0, wFont0), (1, wFont1)] [.glyph 97 0, .glyph 97 2] (.additional 0) = none := by decide
 
 /-! ## The unpatched code (`hpackOld`) violates the property — one witness per defect -/
 
